@@ -9,7 +9,7 @@ functions that call back into interpreted closures.
 Concrete scalars are Python ints/bools (signed types hold signed values); symbolic scalars are z3
 bit-vectors / Bools of the MIR type's width.
 """
-import re, sys, copy, time, collections, threading
+import re, sys, os, copy, time, collections, threading
 import z3
 from .mirread import Unsupported, INT_W, split_top, strip_generics, lastseg, traitkey, CRATE_ALIAS
 
@@ -42,8 +42,8 @@ class Ref:
     def __repr__(self): return 'Ref(%r,%r)' % (self.cell.v if len(self.path) == 0 else '..', self.path)
 
 class Agg:      # struct / tuple / closure / array
-    __slots__ = ('name', 'f')
-    def __init__(self, name, f): self.name = name; self.f = list(f)
+    __slots__ = ('name', 'f', 'g')
+    def __init__(self, name, f, g=None): self.name = name; self.f = list(f); self.g = g       # g: type-parameter bindings captured by a closure
     def __repr__(self): return '%s%r' % (self.name, self.f)
 
 class EnumV:
@@ -154,7 +154,7 @@ def ite(c, a, b, w=None):
 
 def copy_val(v):
     """semantic copy for `copy` operands (Copy types): duplicate aggregates, share references"""
-    if isinstance(v, Agg): return Agg(v.name, [copy_val(x) for x in v.f])
+    if isinstance(v, Agg): return Agg(v.name, [copy_val(x) for x in v.f], v.g)
     if isinstance(v, EnumV): return EnumV(v.name, v.disc, [copy_val(x) for x in v.f])
     return v
 
@@ -674,8 +674,8 @@ class Machine:
         if t.startswith('{closure@'):
             if '@@DEF@@' in t:
                 t, d = t.split('@@DEF@@', 1)
-                return Agg(t + '@@' + fr.item.name + '@@' + d, [])
-            return Agg(t + '@@' + fr.item.name, [])
+                return Agg(t + '@@' + fr.item.name + '@@' + d, [], fr.generics)
+            return Agg(t + '@@' + fr.item.name, [], fr.generics)
         return FnItem(t)
     def eval_const_item(self, fr, c, key=None):
         items = self.prog.items
@@ -760,7 +760,9 @@ class Machine:
                 raise Unsupported('terminator kind ' + k)
             except Unsupported as e:
                 if not getattr(e, 'ctx', None):
-                    e.ctx = True; e.args = ('%s\n   in %s %s' % (e.args[0] if e.args else '', it.name, bb),)
+                    e.ctx = 1; e.args = ('%s\n   in %s %s' % (e.args[0] if e.args else '', it.name, bb),)
+                elif e.ctx < 6 and os.environ.get('MIRSYM_TRACE'):
+                    e.ctx += 1; e.args = ('%s\n   called from %s %s' % (e.args[0], it.name, bb),)
                 raise
             except Panic as e:
                 if not e.where: e.where = it.name
@@ -812,7 +814,7 @@ class Machine:
             defp = None
             if dst is not None and dst[0] == 'local':
                 defp = self.prog.closure_of.get((fr.item.crate, fr.item.name, dst[1]))
-            return Agg(rv[1] + '@@' + fr.item.name + ('@@' + defp if defp else ''), caps)
+            return Agg(rv[1] + '@@' + fr.item.name + ('@@' + defp if defp else ''), caps, fr.generics)
         raise Unsupported('rvalue kind ' + k)
 
     def seq_len(self, v):
@@ -980,6 +982,13 @@ class Machine:
                 if cand in self.prog.items: key = cand
         if key is not None and self.prog.items[key].kind == 'fn' and self.prog.items[key].blocks:
             generics = None
+            ms = re.match(r'^<(.+) as (.+?)>::(\w+)(?:::<.*>)?$', callee)
+            if ms:
+                selfty = ms.group(1)
+                if fr.generics and selfty in fr.generics: selfty = fr.generics[selfty]
+                generics = {'Self': selfty}
+            elif fr.generics and 'Self' in fr.generics and '<impl at' not in self.prog.items[key].name:
+                pass
             tf = re.search(r'::<(.*)>$', callee)
             if tf:
                 targs = [a for a in split_top(tf.group(1)) if not a.startswith("'")]
@@ -993,9 +1002,10 @@ class Machine:
                     if mm.group(1) not in found and not re.search(r'::' + mm.group(1) + r'\b', sig[max(0, mm.start() - 2):mm.end()]):
                         found.append(mm.group(1))
                 if len(found) >= len(targs): names = found
-                generics = {nm: t for nm, t in zip(names, targs)}
+                g2 = {nm: t for nm, t in zip(names, targs)}
                 if fr.generics:
-                    generics = {k: fr.generics.get(v, v) for k, v in generics.items()}
+                    g2 = {k: fr.generics.get(v, v) for k, v in g2.items()}
+                generics = dict(generics or {}, **g2)
             return self.call_fn(key, args, generics)
         r = self.intrinsics.dispatch(self, fr, callee, n, args)
         if r is NotImplemented:
@@ -1003,16 +1013,22 @@ class Machine:
         return r
 
     def dyn_dispatch(self, fr, callee, md, args):
+        """callee `<P as Trait<..>>::m` where P is a type parameter (or Self): pick the impl for the static type bound to P in
+        this frame when known, else for the run-time type of the receiver; None -> fall back to the trait default"""
+        static = (fr.generics or {}).get(md.group(1))
+        if static and re.fullmatch(r'[A-Z][A-Za-z0-9]?|Self', static.strip()): static = None      # unresolved type parameter
         rv = self.deref(args[0])
-        tname = lastseg(rv.name) if isinstance(rv, (Agg, EnumV)) else None
-        ck = (strip_generics(callee), tname)
+        tname = rv.name if isinstance(rv, (Agg, EnumV)) else None
+        type_str = static or tname
+        if type_str is None: return None
+        ck = (strip_generics(callee), type_str)
         if ck in self._dyn: return self._dyn[ck]
-        tb = lastseg(md.group(2)); key = None
-        for (ty, tr, me), k2 in self.prog.impl.items():
-            if ty == tname and me == md.group(3) and tr and tr.split('<')[0] == tb: key = k2
+        tb = lastseg(md.group(2))
+        key = self.prog.pick_impl(type_str, tb, md.group(3), fr.item.crate)
+        if key is False: raise Unsupported('ambiguous impl of %s::%s for %s' % (tb, md.group(3), type_str))
         if key is None:
             for k2, it in self.prog.items.items():
-                if it.kind == 'fn' and k2[1].endswith('::' + tb + '::' + md.group(3)): key = k2
+                if it.kind == 'fn' and k2[1].endswith('::' + tb + '::' + md.group(3)): key = k2; break
         self._dyn[ck] = key
         return key
 
@@ -1045,7 +1061,7 @@ class Machine:
             # closure_ref may be a & to & ...: make it point at the Agg
             while isinstance(a0, Ref) and isinstance(self.get(a0.cell, a0.path), Ref): a0 = self.get(a0.cell, a0.path)
         else: a0 = clo_v
-        return self.call_fn(key, [a0] + list(cargs))
+        return self.call_fn(key, [a0] + list(cargs), getattr(clo_v, 'g', None))
 
     def closure_body(self, fr, clo_v, nargs):
         ck = (clo_v.name, nargs)
